@@ -55,13 +55,13 @@ def parseOp (ts : List String) : Option Op :=
   | "restart" :: _ => some .restart
   | _ => none
 
-/-- One row of the task listing: the definition and the executing flag. -/
-abbrev Row := Task × Bool
+/-- One row of the task listing: ID, definition, executing flag. -/
+abbrev Row := String × Task × Bool
 
 def parseRow (s : String) : Option Row :=
   match s.splitOn ";" with
   | [id, _ty, st, ex, tm, sc, v, d] =>
-    some ({ id := id, script := sc, vars := v, tmpl := undash tm, dbrps := listTok d, enabled := st == "e" }, ex == "1")
+    some (id, { script := sc, vars := v, tmpl := undash tm, dbrps := listTok d, enabled := st == "e" }, ex == "1")
   | _ => none
 
 def parseRows (tok : String) : Option (List Row) :=
@@ -74,16 +74,16 @@ def parseTmplRows (tok : String) : Option (List (String × String)) :=
     | _ => none
 
 def renderRow (r : Row) : String :=
-  s!"{r.1.id};{if r.1.enabled then "e" else "d"};{if r.2 then "1" else "0"};{if r.1.tmpl.isEmpty then "-" else r.1.tmpl};{r.1.script};{r.1.vars};{if r.1.dbrps.isEmpty then "-" else ",".intercalate r.1.dbrps}"
+  s!"{r.1};{if r.2.1.enabled then "e" else "d"};{if r.2.2 then "1" else "0"};{if r.2.1.tmpl.isEmpty then "-" else r.2.1.tmpl};{r.2.1.script};{r.2.1.vars};{if r.2.1.dbrps.isEmpty then "-" else ",".intercalate r.2.1.dbrps}"
 def renderRows (l : List Row) : String := if l.isEmpty then "-" else "|".intercalate (l.map renderRow)
 def renderTmpls (l : List (String × String)) : String := if l.isEmpty then "-" else "|".intercalate (l.map fun p => s!"{p.1};{p.2}")
 
 def modelRows (w : World) : List Row :=
-  w.store.tids.filterMap fun i => (w.store.tasks i).map fun t => (t, w.exec i)
+  w.store.tids.filterMap fun i => (w.store.tasks i).map fun t => (i, t, w.exec i)
 def modelTmpls (w : World) : List (String × String) :=
-  w.store.mids.filterMap fun i => (w.store.tmpls i).map fun t => (t.id, t.script)
+  w.store.mids.filterMap fun i => (w.store.tmpls i).map fun t => (i, t)
 def specRows (c : Cat) (ids : List String) : List Row :=
-  ids.filterMap fun i => (c.tasks i).map fun t => (t, c.executing i)
+  ids.filterMap fun i => (c.tasks i).map fun t => (i, t, c.executing i)
 def specTmpls (c : Cat) (mids : List String) : List (String × String) :=
   mids.filterMap fun i => (c.tmpls i).map fun s => (i, s)
 
@@ -120,23 +120,26 @@ structure St where
 def St.mm (st : St) (d : String) : St := if st.mismatch.isSome then st else { st with mismatch := some d }
 def St.kn (st : St) (k d : String) : St := if st.known.isSome then st else { st with known := some (k, d) }
 
-def rowsFn (rows : List Row) : String → Option Task := fun i => (rows.find? (fun r => r.1.id == i)).map (·.1)
+def rowsFn (rows : List Row) : String → Option Task := fun i => (rows.find? (fun r => r.1 == i)).map (·.2.1)
+
+/-- The definitions of a listing (without the executing flags). -/
+def defs (rows : List Row) : List (String × Task) := rows.map fun r => (r.1, r.2.1)
 
 def execOk (c : Cat) (rows : List Row) (exec : List String) (ids : List String) : Bool :=
-  rows.all (fun r => r.2 == c.executing r.1.id) && ids.all (fun i => exec.contains i == c.executing i)
+  rows.all (fun r => r.2.2 == c.executing r.1) && ids.all (fun i => exec.contains i == c.executing i)
 
 /-- Does the observed listing agree with catalogue `c` (tasks, templates, executing)? `free` = tasks whose
 executing flag may also be its start oracle outcome (re-attempted by a rolled-back template update). -/
 def agrees (env : Env) (fail : List String) (c : Cat) (ids mids : List String) (rows : List Row) (tm : List (String × String))
     (exec : List String) (free : List String) : Option Cat :=
-  if rows.map (·.1) != (specRows c ids).map (·.1) then none
+  if defs rows != defs (specRows c ids) then none
   else if tm != specTmpls c mids then none
   else
     -- adopt re-attempt outcomes where the spec leaves them open
     let c' := free.foldl (fun c i =>
       match c.tasks i with
-      | some t => if t.enabled && decide (exec.contains i ≠ c.executing i) && (exec.contains i == startOK env fail t)
-                  then setStarted c i (startOK env fail t) else c
+      | some t => if t.enabled && decide (exec.contains i ≠ c.executing i) && (exec.contains i == startOK env fail i t)
+                  then setStarted c i (startOK env fail i t) else c
       | none => c) c
     if execOk c' rows exec ids then some c' else none
 
@@ -181,7 +184,7 @@ def judge (_id : String) (lines : Array String) : Verdict := Id.run do
               | none =>
                 let exp := match p.cands with | c :: _ => renderRows (specRows c st.ids) ++ " tmpls " ++ renderTmpls (specTmpls c st.mids) | [] => "?"
                 let defsOk : Bool := match p.cands with
-                  | c :: _ => rows.map (·.1) == (specRows c st.ids).map (·.1) && tm == specTmpls c st.mids
+                  | c :: _ => defs rows == defs (specRows c st.ids) && tm == specTmpls c st.mids
                   | [] => false
                 let clause := if defsOk then "executing-iff-enabled-and-started" else "api-shows-last-accepted"
                 specfail := some (clause, s!"{p.what}: expected {exp} shown {renderRows rows} tmpls {renderTmpls tm} exec {exec}")
@@ -254,7 +257,7 @@ def judge (_id : String) (lines : Array String) : Verdict := Id.run do
           -- crash: the process restarts on the file as it was after k transactions of the request. The file is
           -- the one before the request, the one after it, or — INSIDE the request — neither.
           let w1 := (handle Variant.fixed env fail (beginReq wBefore cut) op).1
-          let file := w1.snap.getD w1.store
+          let file := crashFile w1
           if storeEq ids mids file wBefore.store then { cands := [rs c], what := l }
           else if storeEq ids mids file w1.store || !(multi && 0 < k && k < ntxObs.getD 0) then
             { p0 with cands := p0.cands.map rs, dev := p0.dev.map (fun d => (d.1, rs d.2)), tup := none,
